@@ -270,7 +270,7 @@ class Gen:
             if st and u is None and letter in (b"l", b"L", b"i") and any(e[0] == "ans" and vlib.unhx(e[6]) in (b"Lazy", b"Immediate") for e in st.events):
                 cl.lazy = letter != b"i"
         elif r < 0.65:
-            fs = self.rng.choice([0, 1, 2, 3, 50, 99, 100, 101, 200, 1200, 4094, 4095, 4096, 5000, 65535, self.rng.randrange(65536)])
+            fs = self.rng.choice([0, 1, 2, 3, 50, 99, 100, 101, 200, 1200, 2046, 2047, 2048, 2049, 4094, 4095, 4096, 5000, 65535, self.rng.randrange(65536)])
             self.q(cl, cl.c.set_fragsize(fs, u), meta={"kind": "N", "fs": fs})
         elif r < 0.75:
             self.h.send("rand %d" % self.rng.randrange(1 << 31))
